@@ -38,6 +38,10 @@ CHECKS = {
             "Failure tuples must be identical across file scan, stdin scan, scan_string, scan_path; fixed text identical across fix in place, fix_string, fix_path; diagnostics options change nothing else.", "3 C16"),
     "C17": ("complete enumeration of the layer product (3^4 x 4 command-line states x rules x namings x file flavours) and of every configuration item x value class x layer x strictness; precedence model replayed against the implementation three ways",
             "Every state of the documented precedence model is replayed against plugins list, plugins info and a probe scan.", "3 C17"),
+    "C14": ("exhaustive enumeration of recorder-plugin variants (16 callback subsets x fix support x enabled x company) x documents x file sequences x modes; protocol automaton over the recorded callback log",
+            "Every callback log must be accepted by the life-cycle automaton: exact tokens and numbered lines per file in scan mode, (S+ T* L* C)* per pass in fix mode, nothing for disabled rules or undefined callbacks.", "3 C14"),
+    "C15": ("deviation-bounded exhaustive fault enumeration: an exception at every callback invocation / parser invocation, an undecodable file at every position, process death at every intercepted I/O step of the write-back; invariants on every resulting state",
+            "For every single fault point of 3-file runs: error reported naming the file, system-error exit, other files unaffected under continue-on-error, files original-or-fully-fixed, no temp files; every crash snapshot of the write-back holds an acceptable file.", "3 C15"),
 }
 NOT_YET = {}
 
@@ -58,7 +62,7 @@ def main():
                     "evidence_file": f"/verif/evidence/{pid}.json",
                     "replay_cmd_template": f"/venv/bin/python -m vf.run {pid} --replay {{path}}",
                     "engine": "vf",
-                    "level_claimed": {"category": "model_checking", "text": text, "design_ref": f"DESIGN.md section {ref}"},
+                    "level_claimed": {"category": "fault_enumeration" if pid == "C15X" else "model_checking", "text": text, "design_ref": f"DESIGN.md section {ref}"},
                     "level_note": "Trusted: CPython, the harness oracle for this property (vf/checks, vf/oracles), "
                     "the vendored markdown-it-py where used; bounds and alphabets as printed in the evidence file; "
                     "genuine defects of the pinned tree are listed in findings/ by exact minimal input.",
